@@ -31,6 +31,10 @@ type CPlain string // never registered
 // CPoint is a struct whose registered schema is a record (the shape a pointer fast path would take for built-in structs)
 type CPoint struct{ X, Y int64 }
 
+// CRatio is a registered type of float kind: its codec stores percent on the wire (so a built-in float path that
+// bypasses the registration shows in the bytes and in the call counts)
+type CRatio float64
+
 // COpt is an optional value in the style of null.Int: its registered schema is a nullable union and its codec
 // decides by itself (Omit) whether a value is written as null -- in every position, omitempty or not
 type COpt struct {
@@ -45,6 +49,7 @@ type cObjID = [12]byte
 var customNames = map[reflect.Type]string{
 	reflect.TypeOf(cObjID{}):   "CObjID",
 	reflect.TypeOf(COpt{}):     "COpt",
+	reflect.TypeOf(CRatio(0)):  "CRatio",
 	reflect.TypeOf(CEmail("")): "CEmail",
 	reflect.TypeOf(CCelsius{}): "CCelsius",
 	reflect.TypeOf(CTags(nil)): "CTags",
@@ -110,6 +115,14 @@ func (c logCodec) Read(r *avro.ReadBuf, p unsafe.Pointer) error {
 		o.Valid = true
 		return c.Codec.Read(r, unsafe.Pointer(&o.V))
 	}
+	if c.name == "CRatio" {
+		var pct float64
+		if err := c.Codec.Read(r, unsafe.Pointer(&pct)); err != nil {
+			return err
+		}
+		*(*CRatio)(p) = CRatio(pct / 100)
+		return nil
+	}
 	if c.name == "CPoint" {
 		pt := (*CPoint)(p)
 		if err := c.Codec.Read(r, unsafe.Pointer(&pt.X)); err != nil {
@@ -138,6 +151,11 @@ func (c logCodec) Write(w *avro.WriteBuf, p unsafe.Pointer) {
 	}
 	if c.name == "COpt" {
 		c.Codec.Write(w, unsafe.Pointer(&(*COpt)(p).V))
+		return
+	}
+	if c.name == "CRatio" {
+		pct := float64(*(*CRatio)(p)) * 100
+		c.Codec.Write(w, unsafe.Pointer(&pct))
 		return
 	}
 	if c.name == "CPoint" {
@@ -173,6 +191,8 @@ func (c logCodec) New(r *avro.ReadBuf) unsafe.Pointer {
 		return r.Alloc(reflect.TypeOf(cObjID{}))
 	case "COpt":
 		return r.Alloc(reflect.TypeOf(COpt{}))
+	case "CRatio":
+		return r.Alloc(reflect.TypeOf(CRatio(0)))
 	}
 	return r.Alloc(reflect.TypeOf(CCelsius{}))
 }
@@ -182,7 +202,7 @@ var builtLog []logEntry
 func mkBuilder(id int, name string) avro.CodecBuildFunc {
 	return func(schema avro.Schema, typ reflect.Type, omit bool) (avro.Codec, error) {
 		builtLog = append(builtLog, logEntry{id, name, "build:" + schema.Type})
-		if name == "CCelsius" {
+		if name == "CCelsius" || name == "CRatio" {
 			return logCodec{Codec: avro.DoubleCodec{}, id: id, name: name}, nil
 		}
 		if name == "CPoint" || name == "COpt" {
@@ -290,6 +310,15 @@ type COptTwin struct {
 }
 type CEmailTwin string
 
+type HRatio struct {
+	F CRatio            `json:"f"`
+	P *CRatio           `json:"p"`
+	L []CRatio          `json:"l"`
+	M map[string]CRatio `json:"m"`
+	O CRatio            `json:"o,omitempty"`
+	D float64           `json:"d"`
+	G []float64         `json:"g"`
+}
 type HNone struct {
 	A  CPlain              `json:"a"`
 	B  []CPlain            `json:"b"`
@@ -325,7 +354,13 @@ func holderValues(c *driverCtx) []reflect.Value {
 	hop := HOpt{F: ov(5), P: &po, L: []COpt{ov(1), {}, ov(0), {}}, M: map[string]COpt{"a": ov(2), "b": {}}, O: ov(3), Z: 9}
 	hop.N.X = ov(0)
 	hop2 := HOpt{L: []COpt{{}}, M: map[string]COpt{"n": {}}, Z: -1} // every occurrence invalid: null everywhere
-	vals := []any{he, he2, hc, hc2, ht, hn, hp, HPoint{}, ho, HObjID{}, hop, hop2}
+	pr := CRatio(0.75)
+	lr := make([]CRatio, 20)
+	for i := range lr {
+		lr[i] = CRatio(float64(i) * 0.25)
+	}
+	hr := HRatio{F: 0.25, P: &pr, L: lr, M: map[string]CRatio{"a": 1.5}, O: 2, D: 0.5, G: []float64{1, 2, 3, 4, 5, 6, 7, 8, 9, 10, 11, 12, 13, 14, 15, 16, 17}}
+	vals := []any{he, he2, hc, hc2, ht, hn, hp, HPoint{}, ho, HObjID{}, hop, hop2, hr, HRatio{}}
 	out := make([]reflect.Value, len(vals))
 	for i, v := range vals {
 		p := reflect.New(reflect.TypeOf(v))
@@ -387,7 +422,7 @@ func useAll(c *driverCtx, rs *regState, step string) {
 
 func driveC20(c *driverCtx) error {
 	rs := &regState{builder: map[string]int{}, schema: map[string]string{}}
-	types := map[string]reflect.Type{"CEmail": reflect.TypeOf(CEmail("")), "CCelsius": reflect.TypeOf(CCelsius{}), "CTags": reflect.TypeOf(CTags(nil)), "CPoint": reflect.TypeOf(CPoint{}), "CObjID": reflect.TypeOf(cObjID{}), "COpt": reflect.TypeOf(COpt{})}
+	types := map[string]reflect.Type{"CEmail": reflect.TypeOf(CEmail("")), "CCelsius": reflect.TypeOf(CCelsius{}), "CTags": reflect.TypeOf(CTags(nil)), "CPoint": reflect.TypeOf(CPoint{}), "CObjID": reflect.TypeOf(cObjID{}), "COpt": reflect.TypeOf(COpt{}), "CRatio": reflect.TypeOf(CRatio(0))}
 	nextID := 1
 	register := func(name string) {
 		avro.Register(types[name], mkBuilder(nextID, name))
@@ -420,6 +455,8 @@ func driveC20(c *driverCtx) error {
 	registerSchema("CObjID", `"string"`)
 	register("COpt")
 	registerSchema("COpt", `["null","long"]`)
+	register("CRatio")
+	registerSchema("CRatio", `{"type":"double","logicalType":"percent"}`)
 	useAll(c, rs, "1-registered")
 	// step 2: re-register codecs (the most recent builder wins)
 	register("CEmail")
@@ -430,7 +467,7 @@ func driveC20(c *driverCtx) error {
 	register("CTags")
 	useAll(c, rs, "3-reregistered-schema")
 	// step 4: interleaved further registrations in a seeded order
-	names := []string{"CEmail", "CCelsius", "CTags", "CPoint", "CObjID", "COpt"}
+	names := []string{"CEmail", "CCelsius", "CTags", "CPoint", "CObjID", "COpt", "CRatio"}
 	for k := 0; k < c.pick(3, 80); k++ {
 		n := names[c.rng.Intn(len(names))]
 		register(n)
